@@ -31,6 +31,7 @@ EB_API SvtMetadataT *svt_metadata_alloc(
 
 EB_API void svt_metadata_free(void *ptr) {
     SvtMetadataT **metadata = (SvtMetadataT **)ptr;
+    if (!metadata) return;
     if (*metadata) {
         if ((*metadata)->payload) {
             free((*metadata)->payload);
@@ -57,6 +58,7 @@ EB_API SvtMetadataArrayT *svt_metadata_array_alloc(const size_t sz) {
 
 EB_API void svt_metadata_array_free(void *arr) {
     SvtMetadataArrayT **metadata = (SvtMetadataArrayT **)arr;
+    if (!metadata) return;
     if (*metadata) {
         if ((*metadata)->metadata_array) {
             for (size_t i = 0; i < (*metadata)->sz; i++) {
